@@ -205,7 +205,8 @@ def analyse_source(job):
              'ctx': t.get('ctx'), 'line': lines[ln - 1] if ln <= len(lines) else '',
              'prefix': None, 'props': None, 'exc': None, 'exp': None, 'exp_kind': None,
              'own_u': None, 'own_m': None, 'pk': None, 'exp_exc': None,
-             'must_return': bool(t.get('must_return')), 'package': t.get('package'), 'known': t.get('known')}
+             'must_return': bool(t.get('must_return')), 'package': t.get('package'), 'known': t.get('known'),
+             'ext': bool(t.get('ext')), 'exp_recorded': None}
         out.append(r)
         signal.alarm(job.get('timeout', 20))
         try:
@@ -231,6 +232,30 @@ def analyse_source(job):
                 r['exp_exc'] = 'Timeout'
             except Exception as e:
                 r['exp_exc'] = 'list_packages:' + type(e).__name__
+            finally:
+                signal.alarm(0)
+        if not r['exc'] and t.get('from_module') is not None:
+            # `from M import na|me`: the listing of M merged with the attributes of the module M
+            signal.alarm(job.get('timeout', 20))
+            try:
+                from supp import assistant as _as
+                from supp.evaluator import EvalCtx as _E
+                lst = set(_as.list_packages(project, t['from_module'], filename))
+                try:
+                    lst |= set(project.get_nmodule(t['from_module'], filename).attr_list(_E(project)))
+                except ImportError:
+                    pass
+                r['exp'] = sorted(lst)
+                r['exp_kind'] = 'packages'
+                r['package'] = t['from_module']
+                if t.get('ext'):
+                    # recorded behaviour of the unchanged tree for `from M import(na|me)` / `from M import<TAB>na|me`
+                    # (notes/C12.md, round 5): the textual shortcut answers with the top-level listing
+                    r['exp_recorded'] = sorted(_as.list_packages(project, '', filename))
+            except _Timeout:
+                r['exp_exc'] = 'Timeout'
+            except Exception as e:
+                r['exp_exc'] = 'from_module:' + type(e).__name__
             finally:
                 signal.alarm(0)
         if r['exc'] or t['kind'] not in ('name', 'attr'):
@@ -270,6 +295,8 @@ def analyse_source(job):
 def direct_failures(r):
     """list of (what, detail) for one worker result; empty = the contract holds on this input"""
     bad = []
+    if r.get('twin_diff'):
+        bad.append(('twin', r['twin_diff']))
     if r['exc']:
         if r.get('must_return'):
             # a half-typed `from` line / an import of an existing module: assist has to answer
@@ -291,6 +318,10 @@ def direct_failures(r):
         bad.append(('type', 'non-string proposals %r' % nonid[:3]))
     if r['exp'] is not None:
         got, exp = set(props), set(r['exp'])
+        if r['exp_kind'] == 'packages' and r.get('ext') and r.get('exp_recorded') is not None \
+                and list(props) != sorted(exp) and list(props) == r['exp_recorded']:
+            r['known_observation'] = True      # standing, understood observation: counted, not printed
+            return bad
         if r['exp_kind'] == 'packages':
             ok = list(props) == sorted(exp) and (r.get('known') is None or set(r['known']) <= got)
             if not ok:
@@ -532,7 +563,7 @@ def gen_program_jobs(ctx, root, full):
                 seen_e.add(c[2])
             else:
                 rest.append(c)
-        combos = keep + rest[:max(0, ctx.pick(900, 0) - len(keep))]
+        combos = keep + rest[:max(0, ctx.pick(780, 0) - len(keep))]
     jobs = []
     for cls, tmpl, e, wname, wrap in combos:
         def build(expr):
@@ -565,27 +596,129 @@ def gen_program_jobs(ctx, root, full):
                                 'ctx': '%s/%s' % (cls, wname)})
         jobs.append({'tag': 'gen', 'text': text, 'filename': None, 'root': root, 'targets': targets, 'dump': True,
                      'cls': cls, 'tmpl': tmpl})
-    # import lines
-    for tmpl in IMPORT_LINES:
-        for val in (IMPORT_M if '{m}' in tmpl else IMPORT_A):
-            line = tmpl.format(m=val, a=val)
-            text = 'foo = 1\n' + line + '\n'
-            try:
-                ast.parse(text)
-            except SyntaxError:
-                continue
-            pre = 'foo = 1\n' + tmpl.format(m='\x00', a='\x00')
-            pre = pre[:pre.index('\x00')]
-            ln = pre.count('\n') + 1
-            col0 = len(pre) - (pre.rfind('\n') + 1)
-            targets = []
-            for m in re.finditer(r'[^\W\d]\w*', val):
-                for o in _offsets(ctx, len(m.group()), full):
-                    targets.append({'kind': 'import', 'ln': ln, 'start': col0 + m.start(), 'ident': m.group(),
-                                    'col': col0 + m.start() + o, 'ctx': 'import'})
-            jobs.append({'tag': 'gen', 'text': text, 'filename': None, 'root': root, 'targets': targets, 'dump': False,
-                         'cls': 'import', 'tmpl': tmpl})
     return jobs
+
+
+
+# enclosing constructs of an import statement ({S} = the statement, indented as needed)
+NESTS = [
+    ('module', '{S}'),
+    ('def', 'def g(p):\n    q = p\n{S4}\n    return q'),
+    ('async-def', 'async def g():\n{S4}'),
+    ('class', 'class C:\n    cv = 1\n{S4}'),
+    ('method', 'class C:\n    def m(self):\n{S8}'),
+    ('if', 'if foo:\n{S4}\nelse:\n    pass'),
+    ('else', 'if foo:\n    pass\nelif foo > 1:\n    pass\nelse:\n{S4}'),
+    ('try', 'try:\n{S4}\nexcept ImportError:\n    pass'),
+    ('except', 'try:\n    pass\nexcept ImportError as e:\n{S4}'),
+    ('try-else', 'try:\n    pass\nexcept Exception:\n    pass\nelse:\n{S4}'),
+    ('finally', 'try:\n    pass\nfinally:\n{S4}'),
+    ('with', 'with open(foo) as fh:\n{S4}'),
+    ('for', 'for i in foo:\n{S4}'),
+    ('for-else', 'for i in foo:\n    pass\nelse:\n{S4}'),
+    ('while', 'while foo:\n{S4}\n    break'),
+    ('while-else', 'while foo:\n    break\nelse:\n{S4}'),
+    ('match-case', 'match foo:\n    case 1:\n{S8}\n    case _:\n        pass'),
+    ('match-default', 'match foo:\n    case 1:\n        pass\n    case _:\n{S8}'),
+    ('deep', 'def g():\n    for i in foo:\n        try:\n            if i:\n{S16}\n        finally:\n            pass'),
+    ('one-line-if', 'if foo: {S}'),
+]
+IMPORT_STMTS = ['import {m}', 'import os, {m}', 'import {m} as alias', 'import {m}, sys', 'from {m} import path',
+                'from {m} import (path, sep)', 'from os import {a}', 'from os import path, {a}', 'from os import path as p, {a}',
+                'from os import (path,\n    {a})', 'from os import({a})', 'from os import\t{a}', 'from os import {a} as q',
+                'from os.path import {a}']
+
+
+def gen_import_jobs(ctx, root, full):
+    """import statements in every enclosing construct. The proposals of an import name do not depend on where the
+    statement stands: every nested job is compared with its module-level twin, and with the package / module listing."""
+    jobs = []
+    for tmpl in IMPORT_STMTS:
+        vals = IMPORT_M if '{m}' in tmpl else IMPORT_A
+        for val in vals:
+            stmt = tmpl.format(m=val, a=val)
+            if '{m}' in tmpl and tmpl.startswith('from') and val not in ('os',):
+                continue                       # `from sys import path` etc.: keep to modules that have the members
+            nests = NESTS if full else [NESTS[0]] + ctx.rng.sample(NESTS[1:], 4)
+            for nname, nest in nests:
+                if '\n' in stmt and nname == 'one-line-if':
+                    continue
+                body = nest
+                for n in (16, 8, 4):
+                    body = body.replace('{S%d}' % n, _indent(stmt, n))
+                body = body.replace('{S}', stmt)
+                text = 'foo = 1\n' + body + '\n'
+                try:
+                    tree = ast.parse(text)
+                except SyntaxError:
+                    continue
+                lines = text.split('\n')
+                targets = []
+                for node in ast.walk(tree):
+                    if isinstance(node, ast.Import):
+                        for a in node.names:
+                            if a.name in ('os', 'sys') and a.name != val:
+                                continue
+                            for m in re.finditer(r'[^\W\d]\w*', a.name):
+                                for o in range(1, len(m.group()) + 1):
+                                    targets.append({'kind': 'import', 'ln': a.lineno, 'start': a.col_offset + m.start(), 'ident': m.group(),
+                                                    'col': a.col_offset + m.start() + o, 'ctx': 'import/' + nname, 'must_return': True,
+                                                    'package': a.name[:m.start()].rstrip('.')})
+                    elif isinstance(node, ast.ImportFrom):
+                        line = lines[node.lineno - 1]
+                        mm = re.compile(r'from\s+').search(line, node.col_offset)
+                        mstart = mm.end()
+                        if '{m}' in tmpl:
+                            for m in re.finditer(r'[^\W\d]\w*', node.module):
+                                for o in range(1, len(m.group()) + 1):
+                                    typed = node.module[:m.start() + o]
+                                    targets.append({'kind': 'from', 'ln': node.lineno, 'start': mstart + m.start(), 'ident': m.group()[:o],
+                                                    'col': mstart + m.start() + o, 'ctx': 'from/' + nname, 'must_return': True,
+                                                    'package': from_package(typed)[0]})
+                        else:
+                            for a in node.names:
+                                if a.name != val:
+                                    continue
+                                for o in range(1, len(a.name) + 1):
+                                    targets.append({'kind': 'import', 'ln': a.lineno, 'start': a.col_offset, 'ident': a.name,
+                                                    'col': a.col_offset + o, 'ctx': 'import/' + nname, 'must_return': True,
+                                                    'from_module': '.' * node.level + (node.module or ''),
+                                                    'ext': 'import(' in tmpl or 'import\t' in tmpl})
+                if not targets:
+                    continue
+                jobs.append({'tag': 'gen', 'text': text, 'filename': None, 'root': root, 'targets': targets, 'dump': False,
+                             'cls': 'import', 'tmpl': tmpl + ' @' + nname, 'twin': ('import', tmpl, val),
+                             'twin_role': 'ref' if nname == 'module' else 'var'})
+    return jobs
+
+
+def _crlf(text, mode):
+    parts = text.split('\n')
+    seps = {'crlf': ['\r\n'], 'cr': ['\r'], 'mixed': ['\r\n', '\n', '\r']}[mode]
+    out = []
+    for i, part in enumerate(parts[:-1]):
+        out.append(part + seps[i % len(seps)])
+    out.append(parts[-1])
+    return ''.join(out)
+
+
+def line_ending_twins(ctx, jobs, n):
+    """CRLF / lone CR / mixed twins of LF sources: the tokenizer and ast give identical positions, so assist must
+    answer exactly as for the LF text (the mark has to land at the same (line, column))."""
+    cands = [j for j in jobs if j['tag'] in ('gen', 'corpus') and '\r' not in j['text'] and '\n' in j['text']
+             and 'twin' not in j and any(t['ln'] > 1 for t in j['targets'])]
+    if n < len(cands):
+        cands = ctx.rng.sample(cands, n)
+    out = []
+    for k, j in enumerate(cands):
+        key = ('eol', id(j), k)
+        j['twin'], j['twin_role'] = key, 'ref'
+        modes = ('crlf', 'cr', 'mixed') if k % 3 == 0 else (('crlf',) if k % 3 == 1 else ('mixed',))
+        for mode in modes:
+            tj = dict(j, text=_crlf(j['text'], mode), dump=False, twin=key, twin_role='var', tmpl='%s [%s]' % (j['tmpl'], mode))
+            tj['targets'] = [dict(t, ctx=(t.get('ctx') or '') + '/' + mode) for t in j['targets']]
+            out.append(tj)
+    return out
 
 
 # ------------------------------------------------------------------------------------------
@@ -883,8 +1016,10 @@ def run(ctx):
     make_tree(root)
     fjobs = gen_from_jobs(ctx, root, full)
     jobs += fjobs
+    jobs += gen_import_jobs(ctx, root, full)
+    jobs += line_ending_twins(ctx, jobs, ctx.pick(60, 1500))
     cov['from_branch_positions'] = sum(1 for j in fjobs for t in j['targets'] if t['kind'] == 'from')
-    nfiles = ctx.pick(28, 100000)
+    nfiles = ctx.pick(24, 100000)
     files = stdlib_files(limit=nfiles, rng=ctx.rng)
     skipped = {}
     for fn in files:
@@ -900,6 +1035,26 @@ def run(ctx):
     results = run_jobs(jobs)
     ctx.log('real code done')
 
+    # ---- twins: same statement in another enclosing construct / same text with other line endings ----------
+    refs = {}
+    for j, rs in zip(jobs, results):
+        if j.get('twin_role') == 'ref':
+            refs[j['twin']] = rs
+    ntwin = 0
+    for j, rs in zip(jobs, results):
+        if j.get('twin_role') != 'var' or j['twin'] not in refs:
+            continue
+        for r, r0 in zip(rs, refs[j['twin']]):
+            ntwin += 1
+            if r.get('ext') and (r['exc'], r['prefix']) == (r0['exc'], r0['prefix']):
+                continue    # layouts with a recorded shortcut observation: judged against exp / exp_recorded below
+            if (r['exc'], r['prefix'], r['props']) != (r0['exc'], r0['prefix'], r0['props']):
+                r['twin_diff'] = ('answer differs from the %s twin: %s / prefix %r / %s proposals, twin %s / %r / %s'
+                                  % ('module-level' if j['twin'][0] == 'import' else 'LF', r['exc'], r['prefix'],
+                                     None if r['props'] is None else len(r['props']), r0['exc'], r0['prefix'],
+                                     None if r0['props'] is None else len(r0['props'])))
+    cov['twin_comparisons'] = ntwin
+
     # ---- (D) direct evaluation -----------------------------------------------------------
     nviol = 0
     per_class = {}
@@ -910,7 +1065,7 @@ def run(ctx):
             if r['exc']:
                 ctx.histogram('assist_exceptions', '%s/%s' % (r['exc'], r['kind']))
                 ctx.count((j['text'], r['ln'], r['col']), nontrivial=bool(r.get('must_return')))
-                if not r.get('must_return'):
+                if not r.get('must_return') and not r.get('twin_diff'):
                     continue
             left = r['line'][:r['col']]
             if not r['exc']:
@@ -929,11 +1084,13 @@ def run(ctx):
                 if len(sd) < 5:
                     sd.append({'file': j['filename'], 'position': [r['ln'], r['col']], 'line': r['line'][:80]})
             bad = direct_failures(r)
+            if r.get('known_observation'):
+                cov['known_extension_observations'] = cov.get('known_extension_observations', 0) + 1
             if bad:
                 nviol += 1
                 cls_key = '+'.join(sorted({w for w, _d in bad}))
                 per_class[cls_key] = per_class.get(cls_key, 0) + 1
-                in_domain = r['col'] > r['start'] and r['kind'] != 'store'
+                in_domain = r['col'] > r['start'] and r['kind'] != 'store' and not r.get('ext')
                 what = 'assist at %r of %s: %s' % ((r['ln'], r['col']), j['tmpl'] if j['tag'] != 'gen' else repr(r['line']),
                                                    '; '.join(d for _w, d in bad))
                 rep = {'kind': 'direct', 'source': j['text'] if j['tag'] != 'file' else None,
@@ -1038,6 +1195,11 @@ def run(ctx):
     for j, r in flat:
         if r['kind'] != 'from' or not r['line'].isascii():
             continue
+        try:
+            ast.parse(j['text'])
+            continue        # a complete statement: the marked-import branch gives the same answer, nothing to observe
+        except (SyntaxError, ValueError):
+            pass
         left = r['line'][:r['col']]
         took = (not r['exc']) and r['exp'] is not None and list(r['props']) == sorted(r['exp'])
         if (left, took) in seen:
